@@ -270,8 +270,13 @@ class BaseDistanceBasedProbability(BaseDistanceBased):
             np.histogram(X_ref, bins="auto")
         )
         X_rv_histogram = rv_histogram(np.histogram(X, bins="auto"))  # noqa: N806
-        X_merge = np.concatenate([X_ref, X])  # noqa: N806
-        bins = np.linspace(np.min(X_merge), np.max(X_merge), num_bins)
+        # the supports coincide with the sample ranges, except for a constant
+        # sample, whose histogram spans [c - 0.5, c + 0.5]
+        bins = np.linspace(
+            min(X_ref_rv_histogram.a, X_rv_histogram.a),
+            max(X_ref_rv_histogram.b, X_rv_histogram.b),
+            num_bins,
+        )
         X_ref_rvs = [  # noqa: N806
             X_ref_rv_histogram.cdf(bins[i]) - X_ref_rv_histogram.cdf(bins[i - 1])  # noqa: N806
             for i in range(1, len(bins[1:]) + 1)
